@@ -133,12 +133,15 @@ impl Hypergeometric {
         } else {
             let k = x;
             let ln_denom = ln_binomial(self.population, self.draws);
-            ((k + 1)..=self.max()).fold(0.0, |acc, i| {
-                acc + (ln_binomial(self.successes, i)
-                    + ln_binomial(self.population - self.successes, self.draws - i)
-                    - ln_denom)
-                    .exp()
-            })
+            // the rounded sum may exceed 1 by a few ulp; a probability never does
+            ((k + 1)..=self.max())
+                .fold(0.0, |acc, i| {
+                    acc + (ln_binomial(self.successes, i)
+                        + ln_binomial(self.population - self.successes, self.draws - i)
+                        - ln_denom)
+                        .exp()
+                })
+                .min(1.0)
         }
     }
 }
